@@ -75,6 +75,8 @@ type FuncSpec struct {
 	TimeoutS    int
 	Fresh       []string // names of results declared fresh
 	NoFrame     bool
+	DeadReturns map[int]bool // return sites (ordinals) the contract declares unreachable: they must then really be unreachable
+	MayPanic    bool // explicit panic(..) statements are allowed behaviour (no obligation); listed in the evidence
 	Variant     string // property this contract variant is for ("" = base contract)
 	UnderLock   string // the caller must hold this monitor lock (field path, e.g. ".lock"); held on entry, still held on return
 	GhostExit   []*GhostAssign
@@ -186,7 +188,7 @@ var clauseKeywords = map[string]bool{
 	"inline": true, "pure": true, "requires": true, "ensures": true, "modifies": true, "panics": true,
 	"variant": true, "ghost": true, "loop": true, "invariant": true, "decreases": true, "unroll": true, "lemma": true,
 	"axiom": true, "package": true, "global": true, "trusted": true, "ghostfield": true, "opaque": true,
-	"timeout": true, "noframe": true, "underlock": true, "end": true, "ghostglobal": true, "monitor": true, "ghostexit": true, "devirt": true, "transparent": true,
+	"timeout": true, "noframe": true, "maypanic": true, "deadreturn": true, "underlock": true, "end": true, "ghostglobal": true, "monitor": true, "ghostexit": true, "devirt": true, "transparent": true,
 }
 
 type specLine struct {
@@ -503,7 +505,12 @@ func (sp *Specs) ParseSpecText(lines []specLine, file, pkgPath string) error {
 					return errf("variant <prop> func <header>")
 				}
 				variant = ff[0]
-				hdr = strings.TrimSpace(strings.TrimPrefix(strings.TrimSpace(ff[1]), "func"))
+				hdr = strings.TrimSpace(ff[1])
+				if strings.HasPrefix(hdr, "assumed ") {
+					assumed = true
+					hdr = strings.TrimSpace(strings.TrimPrefix(hdr, "assumed "))
+				}
+				hdr = strings.TrimSpace(strings.TrimPrefix(hdr, "func"))
 			}
 			if s.kw == "assumed" {
 				assumed = true
@@ -726,6 +733,16 @@ func (sp *Specs) ParseSpecText(lines []specLine, file, pkgPath string) error {
 				cur.Pure = true
 			case "noframe":
 				cur.NoFrame = true
+			case "maypanic":
+				cur.MayPanic = true
+			case "deadreturn":
+				if cur.DeadReturns == nil {
+					cur.DeadReturns = map[int]bool{}
+				}
+				for _, f := range strings.Fields(s.rest) {
+					n, _ := strconv.Atoi(f)
+					cur.DeadReturns[n] = true
+				}
 			case "underlock":
 				cur.UnderLock = "." + strings.TrimPrefix(strings.TrimSpace(s.rest), ".")
 			case "timeout":
